@@ -11,10 +11,29 @@ def caught(res):
     return [c for c, x in sorted(res.items()) if x[0] == 1], [c for c, x in sorted(res.items()) if x[0] not in (0, 1)]
 
 def main():
-    seeded = []
+    byname = {}
     for f in sys.argv[1].split(","):
-        seeded += json.load(open(f))
-    seeded.sort(key=lambda r: r["mutant"])
+        for r in json.load(open(f)):
+            byname[r["mutant"]] = r  # a later matrix overrides an earlier row of the same change
+    seeded = sorted(byname.values(), key=lambda r: r["mutant"])
+    if os.environ.get("DESIGN_TABLE"):
+        # the three-column table of DESIGN.md 14.11
+        print("| change | breaks | caught by |")
+        print("|---|---|---|")
+        none, other = [], 0
+        for row in seeded:
+            name = row["mutant"]
+            mp = os.path.join(ROOT, "seeded", name, "meta.json")
+            own = json.load(open(mp)).get("property", "?") if os.path.exists(mp) else "?"
+            c, _ = caught(row["results"])
+            if not c:
+                none.append(name)
+            elif own not in c:
+                other += 1
+            print(f"| {name} | {own} | {', '.join(c) + (' †' if own not in c else '') if c else '**none** (see 14.9)'} |")
+        print()
+        print(f"{len(seeded)} seeded changes: {len(seeded) - len(none)} caught, {len(none)} not caught by decision ({', '.join(none)}); {other} caught by other checks only at this scale.")
+        return
     print("| change | breaks | needs, in order to manifest | caught by (quick tier, 1/4 of the runs) |")
     print("|---|---|---|---|")
     for row in seeded:
